@@ -10,6 +10,7 @@ CONSTANTS
   Protos = {TRUE, FALSE}
   Faults <- DialFaults
   Spurious = FALSE
+  AllowDrop = FALSE
   Durs <- Durs1
   MaxT = 2
   RespFaults = FALSE
